@@ -88,6 +88,14 @@ func checkKeys(t *testing.T) {
 	}
 }
 
+// fault gives the run's destination a fault plan: its failAt-th Write call
+// (counted from now) accepts only short bytes and fails; with transient only
+// that call fails.
+func (r *run) fault(failAt, short int, transient bool) {
+	r.rec.FailAt, r.rec.Short, r.rec.Transient = len(r.rec.Calls)+failAt, short, transient
+	r.ck.Faults = true
+}
+
 // known reports (and counts) a case that matches the listed known finding; the
 // history cannot be continued behind it.
 func known(err error) bool {
@@ -115,6 +123,9 @@ func (r *run) desc() caseDesc {
 // whole re-parses the complete destination stream independently of the
 // per-call bookkeeping: whole frames only, as many as the validator counted.
 func (r *run) whole() error {
+	if r.ck.Failed {
+		return nil // the stream was cut by the destination fault
+	}
 	fs, rest, err := ref.ParseFrames(r.rec.Bytes())
 	if len(rest) > 0 {
 		return fmt.Errorf("destination stream does not end at a frame boundary: %v", err)
@@ -158,6 +169,9 @@ func (r *run) note() {
 	mark("saw/write-through", c.Throughs)
 	mark("saw/write-through-refused", c.Refused)
 	mark("saw/grow-with-buffered-bytes", c.GrowBuffered)
+	if c.Faults {
+		hx.Class(fmt.Sprintf("fault/planned/happened=%v", c.Failed))
+	}
 	mark("saw/readfrom-source-error-or-stall", c.ReadFromErrs)
 	mark("open/zero-bytes-dirty", c.OpenEmpty)
 	mark("open/zero-bytes-dirty/nothing-sent", c.OpenNothing)
@@ -176,6 +190,10 @@ func TestStateMachine(t *testing.T) {
 		cfg := wh.DrawConfig(t, "cfg", true)
 		r := newRun(cfg, rapid.Int64Range(1, 1<<40).Draw(t, "seed"))
 		hx.Eval()
+		if rapid.IntRange(0, 4).Draw(t, "fault?") == 4 {
+			// destination-fault dimension: byte accounting during and after the fault
+			r.fault(rapid.IntRange(0, 12).Draw(t, "fault.at"), rapid.SampledFrom([]int{0, 0, 1, 2, 5, 1 << 20}).Draw(t, "fault.short"), rapid.Bool().Draw(t, "fault.transient"))
+		}
 		var bad error
 		dead := false
 		step := func(t *rapid.T, a wh.Action) {
@@ -534,4 +552,55 @@ func TestKnownFindings(t *testing.T) {
 	hx.Probe(t, wh.SigFlushNoopAfterReadFromError, what, present, map[string]interface{}{
 		"writer": "NewWriterBufferSize(server, text, 10)", "source": "8 bytes, then a non-EOF error", "readfrom_n": n, "flush_err": fmt.Sprint(ferr),
 		"frames_after_flush": ref.Describe(fs1), "frames_after_next_message": ref.Describe(fs)})
+}
+
+// TestDestinationFault: deterministic complement of the fault dimension of the
+// state machine — for small writers, every position of the failing destination
+// call in a few scripts, then more calls on the failed writer: returned counts
+// stay within what was offered, a failed writer accepts nothing more, and what
+// reached the destination is a prefix of what was accepted / offered.
+func TestDestinationFault(t *testing.T) {
+	scripts := [][]wh.Letter{
+		{{Kind: wh.KWrite, Rel: "1"}, {Kind: wh.KWrite, Rel: "2s+3"}, {Kind: wh.KWrite, Rel: "a+1"}, {Kind: wh.KFlush}},
+		{{Kind: wh.KWrite, Rel: "2s+3"}, {Kind: wh.KWrite, Rel: "a"}, {Kind: wh.KFlush}},
+		{{Kind: wh.KWrite, Rel: "a-1"}, {Kind: wh.KReadFrom, Rel: "2s+3"}, {Kind: wh.KFlush}},
+		{{Kind: wh.KThrough, Rel: "s+1"}, {Kind: wh.KWrite, Rel: "1"}, {Kind: wh.KFragment}, {Kind: wh.KWrite, Rel: "a+1"}, {Kind: wh.KFlush}},
+		{{Kind: wh.KWrite, Rel: "a"}, {Kind: wh.KFlush}, {Kind: wh.KWrite, Rel: "1"}, {Kind: wh.KFlush}},
+	}
+	tail := []wh.Letter{{Kind: wh.KWrite, Rel: "1"}, {Kind: wh.KWrite, Rel: "2s+3"}, {Kind: wh.KThrough, Rel: "1"}, {Kind: wh.KReadFrom, Rel: "1"}, {Kind: wh.KWrite, Rel: "a"}, {Kind: wh.KFlush}}
+	n, happened := 0, 0
+	for _, client := range []bool{false, true} {
+		for _, raw := range []int{12, 131, 132} {
+			for _, nf := range []bool{false, true} {
+				for si, sc := range scripts {
+					for failAt := 0; failAt < 8; failAt++ {
+						for _, short := range []int{0, 1, 4, 1 << 20} {
+							for _, transient := range []bool{false, true} {
+								cfg := wh.Config{Ctor: "bufsize", N: raw, Client: client, Op: 2, NoFlush: nf}
+								r := newRun(cfg, int64(raw*131+si*17+failAt))
+								r.fault(failAt, short, transient)
+								n++
+								var err error
+								for _, l := range append(append([]wh.Letter{}, sc...), tail...) {
+									if err = r.do(l.Resolve(r.ex.View(), r.ex.Pos)); err != nil {
+										break
+									}
+								}
+								if err != nil && !known(err) {
+									hx.Failf(t, map[string]interface{}{"case": r.desc(), "fail_at_dest_call": failAt, "short": short, "transient": transient}, "%v", err)
+									return
+								}
+								if r.ck.Failed {
+									happened++
+								}
+							}
+						}
+					}
+				}
+			}
+		}
+	}
+	hx.EvalN(n)
+	hx.Class(fmt.Sprintf("fault/deterministic/fault-happened=%d-of-%d", happened, n))
+	hx.Part("destination fault: 3 buffer sizes x side x flush mode x 5 scripts x failing call 0..7 x short write 0/1/4/all x transient", int64(n), true)
 }
